@@ -129,6 +129,10 @@ def build(env, shape, tag='d'):
     if k == 'enum':
         members = shape['members']
         return Spec(k, dt=dt.EnumType('e', **members), members=members)
+    if k == 'string' and shape.get('unlimited'):
+        mn = env.int(tag + '.minchars', 0, 4)
+        utf8 = bool(shape.get('utf8'))
+        return Spec(k, dt=dt.StringType(mn, UNLIMITED, isUTF8=utf8), min=mn, max=UNLIMITED, utf8=utf8)
     if k == 'string':
         mn = env.int(tag + '.minchars', 0, 4)
         mx = env.int(tag + '.maxchars', 0, 5)
